@@ -19,7 +19,8 @@ Hard(ev) ==
   LET o == ev[4] c == ev[5] IN
   IF IsExc(o) /\ o[2] \notin DocumentedExc THEN "gff:internal-error"
   ELSE IF IsExc(c) /\ c[2] \notin DocumentedExc THEN "gff:internal-error-on-conversion"
-  ELSE IF IsVal(o) /\ o[2][1] = "gene" /\ \E k \in DOMAIN o[2][3] : ~WellFormedTx(o[2][3][k]) THEN "gff:ill-formed"
+  \* (a parsed record is a description; what must be well-formed are the interval objects built from it)
+  ELSE IF IsVal(o) /\ IsVal(c) /\ o[2][1] = "gene" /\ \E k \in DOMAIN o[2][3] : ~WellFormedTx(o[2][3][k]) THEN "gff:ill-formed"
   ELSE IF IsVal(o) /\ o[2][1] = "gene" /\ Len(o[2][3]) = 0 THEN "gff:gene-without-transcript"
   ELSE "ok"
 Diverges(ev) ==
